@@ -22,6 +22,13 @@ add("C10", "bounded-exhaustive fault/input enumeration in isolated worker proces
     "Every token string up to length 4 (thorough: 5) over a 24-token alphabet in three syntactic contexts, every single-token edit at every token of every seed, every prefix and hostile-byte substitution at every offset, parametric ladders up to 64 KiB plus fixed cyclic programs, and all valid generated programs are pushed through tokenize, Compile, parse, lower, validate and all five backends in worker processes under an address-space limit and a CPU-time watchdog; a recovered panic, a Go fatal error or exceeding the CPU cap is a violation.",
     "The quantifier (all byte strings up to 64 KiB) cannot be exhausted; what is exhausted is stated in the evidence. CPU cap: 40 s per input (quick), 120 s (thorough); no wall-clock oracle.", "DESIGN.md §3 C10")
 
+add("C02", "bounded-exhaustive program x configuration enumeration; every emitted SPIR-V binary checked by an independent structural validator (rule set evaluated as invariants on every binary)",
+    "Every SPIR-V binary produced for F1, F2 (node budget per tier), the micro-programs and the 172 corpus shaders under every option set within one deviation of the default is validated against 95 structural rules (header, section order, id definition/dominance, type uniqueness, per-opcode operand typing, block shape, structured control flow, entry-point interfaces, Vulkan layout decorations, capabilities/extensions). Per-rule fire counts and unexercised rules are reported.",
+    "Trusted base: internal/spvval, written from the SPIR-V/Vulkan specifications with its own binary reader; rules of uncertain basis were left out rather than relaxed.", "DESIGN.md §3 C02")
+add("C09", "bounded-exhaustive program enumeration; every lowered module checked by an independent strict IR validator (each rule an invariant)",
+    "The module returned by LowerWithSource for every program of F1, F2, the micro-programs and the corpus is checked against 24 rules written from the property statement (handle ranges/backward references, no abstract types, type uniqueness, recorded type equals independently re-inferred type, emit coverage and dominance, terminators, return paths/types, store/call/atomic typing, entry-point and resource bindings, naga's own validator).",
+    "Trusted base: internal/irx validator and its independent type inference.", "DESIGN.md §3 C09")
+
 NA = {
 }
 for i in range(1, 20):
